@@ -31,8 +31,9 @@ type Conn struct {
 	wake   chan struct{}
 	in     []byte
 	endErr error // returned by Read when in is exhausted; nil = block
-	chunks []int // sizes for successive reads (0 or exhausted = unlimited)
+	chunks []int // sizes for successive reads (0 = unlimited)
 	ci     int
+	rest   int // chunk size once chunks is exhausted (0 = unlimited)
 	closed bool
 	rdl    time.Time
 	wdl    time.Time
@@ -57,8 +58,13 @@ func New(data []byte, endErr error) *Conn {
 	return &Conn{in: append([]byte{}, data...), endErr: endErr, wake: make(chan struct{}), WriteFailAt: -1}
 }
 
-// SetChunks sets the maximum size of successive Read results.
-func (c *Conn) SetChunks(ch []int) { c.mu.Lock(); c.chunks = ch; c.ci = 0; c.mu.Unlock() }
+// SetChunks sets the maximum size of successive Read results; rest applies
+// once the list is exhausted (0 = unlimited).
+func (c *Conn) SetChunks(ch []int, rest int) {
+	c.mu.Lock()
+	c.chunks, c.ci, c.rest = ch, 0, rest
+	c.mu.Unlock()
+}
 
 func (c *Conn) notify() {
 	close(c.wake)
@@ -113,6 +119,8 @@ func (c *Conn) Read(p []byte) (int, error) {
 					n = k
 				}
 				c.ci++
+			} else if c.rest > 0 && c.rest < n {
+				n = c.rest
 			}
 			copy(p, c.in[:n])
 			c.in = c.in[n:]
